@@ -303,6 +303,232 @@ pub fn run(ctx: &mut Ctx) {
         }
         ctx.bounds.insert("document_sweep".into(), json!(format!("{} documents (every C02 world with at most one deviation)", ws.len())));
     }
+    // a client that runs ahead: every ordered pair of events, and every pair followed by each request, sent before
+    // anything is read (the server finds them queued): every request is still answered exactly once and the server lives
+    {
+        let reqs: Vec<usize> = (0..alpha.len()).filter(|i| alpha[*i].expect != Expect::Silent).collect();
+        let mut bursts: Vec<Vec<usize>> = vec![];
+        for a in 0..alpha.len() {
+            for b in 0..alpha.len() {
+                bursts.push(vec![a, b]);
+                for &r in &reqs[..2.min(reqs.len())] {
+                    bursts.push(vec![a, b, r]);
+                }
+            }
+        }
+        let res: Vec<Vec<(String, String)>> = bursts
+            .par_iter()
+            .map(|h| {
+                let mut failures = vec![];
+                let mut srv = MemSrv::new(Some(vec![0, 1]));
+                let mut ids: BTreeMap<i64, (usize, u32)> = BTreeMap::new();
+                let msgs: Vec<Value> = h
+                    .iter()
+                    .enumerate()
+                    .map(|(i, &ei)| {
+                        let mut m = alpha[ei].msg.clone();
+                        if alpha[ei].expect != Expect::Silent {
+                            m["id"] = json!(100 + i as i64);
+                            ids.insert(100 + i as i64, (ei, 0));
+                        }
+                        m
+                    })
+                    .collect();
+                let o = srv.burst(&msgs);
+                let names: Vec<&str> = h.iter().map(|e| alpha[*e].name).collect();
+                if o.status != Status::Alive {
+                    failures.push((format!("sent-ahead/server-{}", if o.status == Status::Dead { "died" } else { "hung" }), format!("after {:?} sent without waiting the server is {:?}", names, o.status)));
+                    return failures;
+                }
+                let (r, extra) = Box::new(srv).finish_collect();
+                for m in o.msgs.iter().chain(extra.iter()) {
+                    if m.get("method").is_some() {
+                        continue;
+                    }
+                    match m["id"].as_i64().and_then(|i| ids.get_mut(&i)) {
+                        Some(x) => x.1 += 1,
+                        None => failures.push(("sent-ahead/unsolicited-response".to_string(), format!("{:?}: response {} answers no request", names, m))),
+                    }
+                }
+                for (_, (ei, n)) in &ids {
+                    if *n != 1 {
+                        failures.push((format!("sent-ahead/request-answered-{}-times/{}", n, alpha[*ei].name), format!("{:?} sent without waiting: request '{}' got {} responses", names, alpha[*ei].name, n)));
+                    }
+                }
+                if let Err(e) = r {
+                    failures.push(("sent-ahead/unclean-termination".to_string(), format!("{:?}: {}", names, e)));
+                }
+                failures
+            })
+            .collect();
+        for (h, fs) in bursts.iter().zip(res.iter()) {
+            count += 1;
+            ctx.distinct(&format!("burst|{:?}", h));
+            for (k, w) in fs {
+                ctx.fail(k, w, json!({"mode":"burst","history": h.iter().map(|e| alpha[*e].name).collect::<Vec<_>>()}));
+            }
+        }
+        ctx.bounds.insert("sent_ahead".into(), json!(format!("{} bursts (every ordered pair of {} events, alone and followed by a token request)", bursts.len(), alpha.len())));
+    }
+    // the closing handshake in every shape JSON-RPC allows: the shutdown request with its params absent, null, an empty
+    // object, an empty array or some other value, and the same for the exit notification, after four kinds of session
+    {
+        let shapes: Vec<(&str, Option<Value>)> = vec![("absent", None), ("null", Some(Value::Null)), ("empty-object", Some(json!({}))), ("empty-array", Some(json!([]))), ("object", Some(json!({"x":1}))), ("string", Some(json!("x"))), ("number", Some(json!(0)))];
+        let sessions: Vec<(&str, Vec<usize>)> = vec![
+            ("nothing-before", vec![]),
+            ("after-a-valid-document", vec![alpha.iter().position(|s| s.name == "didOpen(a,V)").unwrap()]),
+            ("after-a-faulty-document-and-a-request", vec![alpha.iter().position(|s| s.name == "didOpen(a,X)").unwrap(), alpha.iter().position(|s| s.name == "semanticTokens(a)").unwrap()]),
+            ("after-an-unimplemented-request", vec![alpha.iter().position(|s| s.name == "request foo/bar").unwrap()]),
+        ];
+        let mut jobs = vec![];
+        for (si, _) in sessions.iter().enumerate() {
+            for (a, _) in shapes.iter().enumerate() {
+                for (b, _) in shapes.iter().enumerate() {
+                    jobs.push((si, a, b));
+                }
+            }
+        }
+        let res: Vec<Vec<(String, String)>> = jobs
+            .par_iter()
+            .map(|(si, a, b)| {
+                let mut srv = MemSrv::new(Some(vec![0, 1]));
+                let mut sd = json!({"id":2,"method":"shutdown"});
+                if let Some(p) = &shapes[*a].1 {
+                    sd["params"] = p.clone();
+                }
+                let mut ex = json!({"method":"exit"});
+                if let Some(p) = &shapes[*b].1 {
+                    ex["params"] = p.clone();
+                }
+                srv.closing = (sd, ex);
+                run_history(&alpha, &sessions[*si].1, Box::new(srv)).failures
+            })
+            .collect();
+        for ((si, a, b), fs) in jobs.iter().zip(res.iter()) {
+            count += 1;
+            ctx.distinct(&format!("closing|{}|{}|{}", si, a, b));
+            for (k, w) in fs {
+                ctx.fail(&format!("closing-handshake/{}/shutdown-params-{}/exit-params-{}", k, shapes[*a].0, shapes[*b].0), &format!("session {}: {}", sessions[*si].0, w), json!({"mode":"closing","session": sessions[*si].0, "shutdown": shapes[*a].0, "exit": shapes[*b].0}));
+            }
+        }
+        ctx.bounds.insert("closing_handshakes".into(), json!(format!("{} sessions x {} shapes of the shutdown params x {} shapes of the exit params", sessions.len(), shapes.len(), shapes.len())));
+    }
+    // a client with a workspace: the real binary initialised with a folder on disk (every content menu member x every
+    // way of naming it) and then used: whatever the folder holds, the server lives and answers every request once
+    {
+        let scratch = crate::util::Scratch::new("c12ws");
+        let contents: Vec<(&str, Vec<(&str, Vec<u8>)>)> = vec![
+            ("empty", vec![]),
+            ("one-valid-file", vec![("callee.st", CALLEE.as_bytes().to_vec())]),
+            ("one-faulty-file", vec![("bad.st", X.as_bytes().to_vec())]),
+            ("valid-and-faulty", vec![("callee.st", CALLEE.as_bytes().to_vec()), ("bad.st", X.as_bytes().to_vec())]),
+            ("caller-and-callee", vec![("callee.st", CALLEE.as_bytes().to_vec()), ("main.st", caller().into_bytes())]),
+            ("bytes-that-are-no-utf8", vec![("bytes.st", vec![0xff, 0xfe, 0x00, 0xd8, 0x41, 0x80, 0x81])]),
+            ("empty-file", vec![("empty.st", vec![])]),
+            ("other-extensions", vec![("UPPER.ST", V.as_bytes().to_vec()), ("x.iec", CALLEE.as_bytes().to_vec()), ("notes.txt", b"not a program ?".to_vec())]),
+            ("sub-directory-named-like-a-source", vec![("sub.st/", vec![]), ("callee.st", CALLEE.as_bytes().to_vec())]),
+            ("duplicate-declarations", vec![("one.st", V.as_bytes().to_vec()), ("two.st", V.as_bytes().to_vec())]),
+            ("many-files", (0..300).map(|_| ("", vec![])).collect()),
+        ];
+        let mut jobs = vec![];
+        for (ci, (cname, _)) in contents.iter().enumerate() {
+            for shape in ["workspaceFolders", "rootUri-only", "workspaceFolders+rootUri", "two-folders", "missing-folder", "folder-uri-that-is-no-file", "workspaceFolders-null", "empty-workspaceFolders"] {
+                for verbose in [false, true] {
+                    jobs.push((ci, *cname, shape, verbose));
+                }
+            }
+        }
+        let res: Vec<Option<(String, String)>> = jobs
+            .par_iter()
+            .enumerate()
+            .map(|(n, (ci, cname, shape, verbose))| {
+                let dir = scratch.sub(&format!("w{}", n));
+                let other = scratch.sub(&format!("o{}", n));
+                if *cname == "many-files" {
+                    for k in 0..300 {
+                        std::fs::write(dir.join(format!("f{:03}.st", k)), format!("FUNCTION_BLOCK Fb{} VAR n : INT ; END_VAR n := {} ; END_FUNCTION_BLOCK\n", k, k)).unwrap();
+                    }
+                } else {
+                    for (name, bytes) in &contents[*ci].1 {
+                        if let Some(d) = name.strip_suffix('/') {
+                            std::fs::create_dir_all(dir.join(d)).unwrap();
+                        } else {
+                            std::fs::write(dir.join(name), bytes).unwrap();
+                        }
+                    }
+                }
+                let uri = |p: &std::path::Path| format!("file://{}", p.to_string_lossy());
+                let folder = |p: &std::path::Path| json!({"uri": uri(p), "name": "w"});
+                let params = match *shape {
+                    "workspaceFolders" => json!({"capabilities":{}, "workspaceFolders":[folder(&dir)]}),
+                    "rootUri-only" => json!({"capabilities":{}, "rootUri": uri(&dir)}),
+                    "workspaceFolders+rootUri" => json!({"processId": 4711, "clientInfo": {"name":"c"}, "capabilities":{"textDocument":{"semanticTokens":{"requests":{"full":true},"tokenTypes":[],"tokenModifiers":[],"formats":["relative"]}}}, "rootUri": uri(&dir), "workspaceFolders":[folder(&dir)]}),
+                    "two-folders" => json!({"capabilities":{}, "workspaceFolders":[folder(&dir), folder(&other)]}),
+                    "missing-folder" => json!({"capabilities":{}, "workspaceFolders":[folder(&dir.join("does-not-exist"))]}),
+                    "folder-uri-that-is-no-file" => json!({"capabilities":{}, "workspaceFolders":[{"uri":"untitled:w","name":"w"}]}),
+                    "workspaceFolders-null" => json!({"capabilities":{}, "workspaceFolders": null}),
+                    _ => json!({"capabilities":{}, "workspaceFolders": []}),
+                };
+                let flags: &[&str] = if *verbose { &["-vvvv"] } else { &[] };
+                let mut srv = match StdioSrv::with_init(flags, &params) {
+                    Ok(s) => s,
+                    Err(e) => return Some(("workspace/no-initialize-response".to_string(), e)),
+                };
+                let in_dir = |f: &str| uri(&dir.join(f));
+                let hist: Vec<(&str, Value, bool)> = vec![
+                    ("didOpen(main.st in the folder)", did_open(&in_dir("main.st"), 1, &caller()), false),
+                    ("semanticTokens(main.st)", tokens_req(101, &in_dir("main.st")), true),
+                    ("semanticTokens(callee.st, on disk only)", tokens_req(102, &in_dir("callee.st")), true),
+                    ("didChange(callee.st)", did_change(&in_dir("callee.st"), 2, &[X]), false),
+                    ("semanticTokens(callee.st)", tokens_req(103, &in_dir("callee.st")), true),
+                    ("didChangeWorkspaceFolders", json!({"method":"workspace/didChangeWorkspaceFolders","params":{"event":{"added":[folder(&other)],"removed":[folder(&dir)]}}}), false),
+                    ("didOpen(a.st outside)", did_open(A, 1, V), false),
+                    ("semanticTokens(a.st)", tokens_req(104, A), true),
+                ];
+                let mut answered: BTreeMap<i64, u32> = BTreeMap::new();
+                for (name, msg, is_req) in &hist {
+                    if *is_req {
+                        answered.insert(msg["id"].as_i64().unwrap(), 0);
+                    }
+                    let o = srv.step(msg);
+                    for m in &o.msgs {
+                        if m.get("method").is_none() {
+                            if let Some(c) = m["id"].as_i64().and_then(|i| answered.get_mut(&i)) {
+                                *c += 1;
+                            }
+                        }
+                    }
+                    if o.status != Status::Alive {
+                        return Some((format!("workspace/server-{}", if o.status == Status::Dead { "died" } else { "hung" }), format!("folder {}, initialize {}{}: after '{}' the server is {:?}", cname, shape, if *verbose { ", -vvvv" } else { "" }, name, o.status)));
+                    }
+                }
+                let (r, extra) = Box::new(srv).finish_collect();
+                for m in &extra {
+                    if m.get("method").is_none() {
+                        if let Some(c) = m["id"].as_i64().and_then(|i| answered.get_mut(&i)) {
+                            *c += 1;
+                        }
+                    }
+                }
+                if let Some((id, c)) = answered.iter().find(|(_, c)| **c != 1) {
+                    return Some(("workspace/request-not-answered-once".to_string(), format!("folder {}, initialize {}: request {} got {} responses", cname, shape, id, c)));
+                }
+                if let Err(e) = r {
+                    return Some(("workspace/unclean-termination".to_string(), format!("folder {}, initialize {}: {}", cname, shape, e)));
+                }
+                None
+            })
+            .collect();
+        for ((_, cname, shape, verbose), r) in jobs.iter().zip(res.iter()) {
+            count += 1;
+            ctx.traces += 1;
+            ctx.distinct(&format!("workspace|{}|{}|{}", cname, shape, verbose));
+            if let Some((k, w)) = r {
+                ctx.fail(&format!("{}/{}", k, shape), w, json!({"mode":"workspace","folder":cname,"initialize":shape,"verbose":verbose}));
+            }
+        }
+        ctx.bounds.insert("workspaces".into(), json!(format!("{} folder contents x 8 initialize shapes x {{quiet, -vvvv}} on the real binary, 8 messages each", contents.len())));
+    }
     ctx.bounds.insert("periodic_sequences".into(), json!(format!("{} sequences of length 60 (period 1 and 2)", periodic.len())));
     ctx.evaluations = transitions + count;
     ctx.extra.insert("sequences_without_dedup".into(), json!(count));
@@ -325,7 +551,8 @@ pub fn run(ctx: &mut Ctx) {
         .par_iter()
         .map(|h| {
             let mem = run_history(&alpha, h, Box::new(MemSrv::new(Some(vec![0, 1]))));
-            match StdioSrv::new() {
+            // the single events run with full logging (the pairs cover them without): logging is no part of the protocol
+            match StdioSrv::with_flags(if h.len() == 1 { &["-vvvv"] } else { &[] }) {
                 Err(e) => (h.clone(), Some(format!("machinery: {}", e)), vec![]),
                 Ok(b) => {
                     let bin = run_history(&alpha, h, Box::new(b));
@@ -415,6 +642,30 @@ pub fn replay(case: &Value) -> Result<String, String> {
         .iter()
         .map(|n| alpha.iter().position(|s| Some(s.name) == n.as_str()).ok_or_else(|| format!("unknown event {}", n)))
         .collect::<Result<_, _>>()?;
+    if case["mode"] == "burst" {
+        // all messages sent before anything is read
+        let mut srv = MemSrv::new(Some(vec![0, 1]));
+        let mut want = 0usize;
+        let msgs: Vec<Value> = hist
+            .iter()
+            .enumerate()
+            .map(|(i, &ei)| {
+                let mut m = alpha[ei].msg.clone();
+                if alpha[ei].expect != Expect::Silent {
+                    m["id"] = json!(100 + i as i64);
+                    want += 1;
+                }
+                m
+            })
+            .collect();
+        let o = srv.burst(&msgs);
+        if o.status != Status::Alive {
+            return Err(format!("the server is {:?}", o.status));
+        }
+        let (r, extra) = Box::new(srv).finish_collect();
+        let got = o.msgs.iter().chain(extra.iter()).filter(|m| m.get("method").is_none() && m["id"].as_i64().map(|i| i >= 100).unwrap_or(false)).count();
+        return if got == want && r.is_ok() { Ok(format!("{} requests, {} responses, clean termination", want, got)) } else { Err(format!("{} requests, {} responses, termination {:?}", want, got, r)) };
+    }
     let srv: Box<dyn Server> = if case["mode"] == "stdio" {
         Box::new(StdioSrv::new()?)
     } else {
